@@ -31,7 +31,7 @@ ASSUMPTIONS = ['truth kinematics written by hand from textbook formulas, checked
                '(disagreement => inconclusive)', 'a limit cannot be observed: restated as the bounded halving ladder above (K = 6; the true '
                'ratio of a method of order p >= 1 is <= 2)', 'longitudes compared modulo 360 (the integrator does not wrap; not part of C01)']
 REQUIRED_OBS = ['ladders', 'channels_above_floor', 'southern', 'western', 'near_seam', 'fast', 'slow', 'high_altitude', 'rate_sensor',
-                'increment_sensor', 'integrate_calls_monitored', 'imu_columns_permuted', 'stamps_not_from_zero']
+                'increment_sensor', 'integrate_calls_monitored', 'imu_columns_permuted', 'stamps_not_from_zero', 'special_inertial_null', 'special_rest', 'special_steady']
 REQUIRED_CLASSES = {'all': ['rate-N', 'rate-S', 'increment-N', 'increment-S']}
 EPS = np.finfo(float).eps
 STATE = {}
@@ -63,6 +63,13 @@ def cases(seed, tier):
         T = float(min(120.0, max(5.0, 12000 * h))) if tier == 'quick' else float(min(400.0, max(5.0, 40000 * h)))
         out.append(dict(seed=int(seed) * 1000003 + i, cls=f'{st}-{"S" if south else "N"}', h=h, T=T, sensor=st, south=south,
                         rungs=2 if tier == 'quick' else 3, cost=T / h / 1000))
+    # regimes in which a physical quantity vanishes (see truth_motion.special_motion), at the fine end of the interval range
+    kinds = ['inertial_null', 'inertial_null', 'rest', 'steady']
+    for i in range(12 if tier == 'quick' else 160):
+        st = 'rate' if i % 2 == 0 else 'increment'
+        h = [0.001, 0.002, 0.005][i % 3]
+        out.append(dict(seed=int(seed) * 1000003 + 95000 + i, cls=f'{st}-{"S" if i % 4 >= 2 else "N"}', h=h, T=float([40.0, 60.0, 100.0][i % 3]), sensor=st, south=i % 4 >= 2,
+                        rungs=2, special=kinds[i % 4], cost=60))
     if tier == 'thorough':
         for i in range(6):
             out.append(dict(seed=int(seed) * 1000003 + 90000 + i, cls=f'{"rate" if i % 2 == 0 else "increment"}-{"S" if i % 4 >= 2 else "N"}',
@@ -119,8 +126,12 @@ def run_case(case):
     T, h, sensor = case['T'], case['h'], case['sensor']
     lat_range = (-85, -1) if case['south'] else (1, 85)
     speed_max = 300.0 if rng.random() < 0.6 else 20.0
-    m, ex = TM.random_motion(rng, T, lat_range=lat_range, speed_max=speed_max, gentle=bool(case.get('gentle')),
-                             aggressive=1.0 if T <= 130 else 0.5)
+    if case.get('special'):
+        m, ex = TM.special_motion(rng, T, case['special'])
+        obs['special_' + case['special']] = 1
+    else:
+        m, ex = TM.random_motion(rng, T, lat_range=lat_range, speed_max=speed_max, gentle=bool(case.get('gentle')),
+                                 aggressive=1.0 if T <= 130 else 0.5)
     before = patch.COUNTERS['integrate_calls']
     runs = []
     try:
@@ -136,7 +147,7 @@ def run_case(case):
         return dict(violations=[vio('exception', f'{type(e).__name__}: {e}', tb=traceback.format_exc()[-1000:])], obs=obs)
     obs['integrate_calls_monitored'] = patch.COUNTERS['integrate_calls'] - before
     obs['ladders'] = 1
-    obs['southern'] = int(case['south'])
+    obs['southern'] = int(np.rad2deg(m.p['lat'][0]) < 0)
     lon0 = np.rad2deg(m.p['lon'][0])
     obs['western'] = int(lon0 < 0)
     obs['near_seam'] = int(abs(abs(lon0) - 180) < 0.01)
